@@ -218,7 +218,7 @@ def ormPreps (k : W → Pl → W) (e : Env) (x : Hd) (r : Rec) (w : W) : W :=
 
 /-- dbft.go:725-736 -/
 def ormCommits (k : W → Pl → W) (x : Hd) (r : Rec) (w : W) : W :=
-  if x.v ≤ w.nd.view then r.commits.foldl (fun w c => k w (.commit ⟨c.2.1, x.h, x.v⟩ c.2.2)) w else w
+  if x.v ≤ w.nd.view then r.commits.foldl (fun w c => k w (.commit ⟨c.2.1, x.h, c.1⟩ c.2.2)) w else w
 
 theorem onRecoveryMessage_eq (k : W → Pl → W) (e : Env) (w : W) (x : Hd) (r : Rec) :
     onRecoveryMessage k e w x r =
@@ -235,7 +235,7 @@ theorem bi_ormCvs {k : W → Pl → W} (hk : BiK k) (x : Hd) (r : Rec) (w : W) :
 
 theorem bi_ormCommits {k : W → Pl → W} (hk : BiK k) (x : Hd) (r : Rec) (w : W) : (ormCommits k x r w).nd.bi = w.nd.bi := by
   unfold ormCommits; split
-  · exact bi_foldk hk (fun c : Nat × Nat × Block => Pl.commit ⟨c.2.1, x.h, x.v⟩ c.2.2) r.commits w
+  · exact bi_foldk hk (fun c : Nat × Nat × Block => Pl.commit ⟨c.2.1, x.h, c.1⟩ c.2.2) r.commits w
   · rfl
 
 theorem bi_ormPreps {k : W → Pl → W} (hk : BiK k) (e : Env) (x : Hd) (r : Rec) (w : W) :
